@@ -22,7 +22,12 @@ RULE = ("k-medoids (cold, from centre indices, from (trajectory,frame) pairs, fr
         "(incl. frames outside the cluster, the current medoid, another medoid); every prefix of the sweeps is run from the same "
         "recorded history and the cost followed sweep by sweep; each seeded run is repeated. non-trivial := >= 2 clusters and at "
         "least one accepted and one rejected proposal"
-        " Input-class axes, each forced in every run for every entry point (cluster_common.gen_axis_streams): memory layout of the data (column subset / strided rows / Fortran / transposed / negative stride / strided columns / read-only; same values, the metric is evaluated on a fresh contiguous copy); container of the warm-start centres (2-D array or md.Trajectory slice, Python list of frames, the .centers list of an earlier result) with argument-unchanged checks on the list and the earlier result; a metric that returns its result in one reused float64 buffer; estimator-reuse histories (constructed with other parameters, optional earlier fit on the same or other data, parameters changed through set_params / attribute assignment, second fit) compared with the function form called with the current parameters; tiny length scales (x 2^-14..2^-20) incl. k-medoids started from labels+distances without centre indices. Every run of the real code is bounded by a watchdog (10 s; key does-not-terminate).")
+        " Input-class axes, each forced in every run for every entry point (cluster_common.gen_axis_streams): memory layout of the data (column subset / strided rows / Fortran / transposed / negative stride / strided columns / read-only; same values, the metric is evaluated on a fresh contiguous copy); container of the warm-start centres (2-D array or md.Trajectory slice, Python list of frames, the .centers list of an earlier result) with argument-unchanged checks on the list and the earlier result; a metric that returns its result in one reused float64 buffer; estimator-reuse histories (constructed with other parameters, optional earlier fit on the same or other data, parameters changed through set_params / attribute assignment, second fit) compared with the function form called with the current parameters; tiny length scales (x 2^-14..2^-20) incl. k-medoids started from labels+distances without centre indices. Every run of the real code is bounded by a watchdog (10 s; key does-not-terminate)."
+        " Explicit proposals with random_state=None (2..4 sweeps, from every supplied start state): three identical calls under different "
+        "states of NumPy's global generator must agree with each other, with the seeded run and with one-sweep calls composed by hand. "
+        "65537..70000 frames on a line (k = 2, explicit proposals, held as a recipe; oracle only, exact integer costs before / after): a far "
+        "group of frames at the end / start / middle of the array decides the accept test. Estimator attributes are read after every fit "
+        "of a history and compared with that fit's result_.")
 SHARD = 60
 
 
@@ -54,13 +59,23 @@ def generate(rng, tier):
     for c in cc.gen_axis_streams(rng, ["kmedoids", "hybrid"], reps=1 if tier == "quick" else 8):
         c["extras"] = True
         cases.append(c)
+    # more than 2^16 frames: the group of frames that decides the accept test sits at the end of the array (every
+    # run), and at its start / in the middle (in turn)
+    wheres = ["end", rng.choice(["start", "middle", "end"])] if tier == "quick" else ["end", "start", "middle"] * 4
+    for w in wheres:
+        cases.append(cc.gen_big_kmedoids(rng, w))
     return cases
 
 
-run_impl = cc.run_case
+def run_impl(c):
+    if c["kind"] == "kmedoids_big":
+        return cc.run_big(c)
+    return cc.run_case(c)
 
 
 def oracle(c, out):
+    if c["kind"] == "kmedoids_big":
+        return cc.big_failures(c, out)
     if "err" in out:
         return [cc.err_failure(out)]
     if c.get("init_pts") is not None:
@@ -96,16 +111,22 @@ def oracle(c, out):
     if out.get("chain_equal") is False:
         fails.append(("not-reproducible", "public kmedoids differs from the chained per-sweep run with the same seed"))
     fails += cc.hist_failures(c, out)
+    fails += cc.attr_failures(out)
+    fails += cc.explicit_failures(c, out)
     return fails
 
 
 def coq_check(c, out):
+    if c["kind"] == "kmedoids_big":
+        return None        # 65537..70000 frames: exact integer oracle only
     if c.get("init_pts") is not None:
         return None        # non-frame initial centres are outside the model (frames as centres); oracle only
     return cc.coq_check(c, out)
 
 
 def coq_show(c):
+    if c["kind"] == "kmedoids_big":
+        return "tt"
     return cc.coq_show(c)
 
 
@@ -117,10 +138,14 @@ def _acc_rej(c, out):
 
 
 def nontrivial(c, out):
+    if c["kind"] == "kmedoids_big":
+        return "ctrs" in out
     return "res" in out and len(out["res"]["ctrs"]) >= 2 and c["n"] >= 4
 
 
 def tags(c, out):
+    if c["kind"] == "kmedoids_big":
+        return ["kmedoids-more-than-65536-frames", "kmedoids-more-than-65536-frames-deciding-group-at-" + c["where"]] + (["impl-error"] if "err" in out else [])
     t = cc.common_tags(c, out)
     if c.get("init_pts") is not None:
         t.append("hybrid-non-frame-init")
@@ -134,6 +159,7 @@ def tags(c, out):
     return t
 
 
-ESSENTIAL_TAGS = ["tiny-scale", "tiny-scale-start-without-centres", "init-list", "init-result", "non-contiguous-data", "buffer-reusing-metric", "estimator-history-kmedoids",
+ESSENTIAL_TAGS = ["kmedoids-more-than-65536-frames-deciding-group-at-end", "explicit-proposals-several-sweeps-no-random-state",
+                  "estimator-read-attrs-then-refit", "estimator-read-fit_predict-then-refit", "estimator-read-predict-then-refit", "init-estimator", "tiny-scale", "tiny-scale-start-without-centres", "init-list", "init-result", "non-contiguous-data", "buffer-reusing-metric", "estimator-history-kmedoids",
                   "estimator-history-hybrid", "hybrid-non-frame-init", "multi-scale-data", "kmedoids", "hybrid", "start-cold", "start-centers", "start-state", "start-pairs", "explicit-proposals",
                   "random-proposals", "some-sweep-lowered-cost", "some-sweep-changed-nothing", "estimator-form"]
